@@ -153,6 +153,10 @@ func main() {
 	// ---- model pass
 	evals, special := 0, 0
 	for fn := 0; fn < 2; fn++ {
+		// results are kept across calls: a word returned earlier must not change when the
+		// function is called again (it would if results aliased a reused buffer)
+		var keptIn []string
+		var keptOut, keptCopy []string
 		enumerate(modelLen, func(s string) {
 			evals++
 			if strings.ContainsAny(s, "'\"\\$` \n;&|*~!#") {
@@ -160,6 +164,16 @@ func main() {
 			}
 			if why := judgeModel(fn, s); why != "" {
 				add("model", why, fmt.Sprintf("model|%s|%q", fnNames[fn], s))
+			}
+			out := escape(fn, s)
+			keptIn, keptOut, keptCopy = append(keptIn, s), append(keptOut, out), append(keptCopy, strings.Clone(out))
+			if len(keptIn) == 4 {
+				for i := range keptIn {
+					if keptOut[i] != keptCopy[i] {
+						add("model", fmt.Sprintf("the word returned by %s(%q) changed from %q to %q after later calls", fnNames[fn], keptIn[i], keptCopy[i], keptOut[i]), fmt.Sprintf("kept|%s|%q", fnNames[fn], keptIn[i]))
+					}
+				}
+				keptIn, keptOut, keptCopy = keptIn[:0], keptOut[:0], keptCopy[:0]
 			}
 		})
 	}
